@@ -46,6 +46,7 @@ def explore(core, rng, tier, seed, search=False):
         vals = [rng.randrange(50) for _ in range(n)]
         sc += ["fill %s 7" % lst(vals), "repeat 3 %d" % n, "reverse %s" % lst(vals), "clone %s" % lst(vals)]
         sc += ["fillz %d %d" % (n, k) for k in range(6)]
+        sc += ["insertalias %s %d" % (lst(vals), k) for k in (0, 1, 3)]   # the inserted values live in the destination's own spare capacity
         m = rng.randrange(6)
         sc.append("concat %s %s" % (lst(vals), lst([rng.randrange(50) for _ in range(m)])))
     scripts.append(sc)
